@@ -103,4 +103,66 @@ theorem pos_of_mapM_getElem? (src dst p : List Nat) (hs : Pos src) (h : p.mapM (
   rw [List.getElem?_eq_getElem hk] at this
   exact hs _ (List.mem_of_getElem? this)
 
+/-! ### swapaxes -/
+/-- SPEC: the axis permutation of `np.swapaxes(a, m1, m2)` — identity with `m1` and `m2` exchanged -/
+def swapPos (m1 m2 k : Nat) : Nat := if k = m1 then m2 else if k = m2 then m1 else k
+
+theorem swapPos_invol (m1 m2 k : Nat) : swapPos m1 m2 (swapPos m1 m2 k) = k := by
+  unfold swapPos; split <;> split <;> (try split) <;> omega
+
+theorem swapPos_lt (m1 m2 k n : Nat) (h1 : m1 < n) (h2 : m2 < n) (hk : k < n) : swapPos m1 m2 k < n := by
+  unfold swapPos; split <;> (try split) <;> omega
+
+theorem swap_order_eq (n m1 m2 : Nat) (h1 : m1 < n) (h2 : m2 < n) :
+    ((List.range n).set m1 m2).set m2 m1 = (List.range n).map (swapPos m1 m2) := by
+  apply List.ext_getElem?
+  intro k
+  simp only [List.getElem?_set, List.getElem?_map, List.length_set, List.length_range]
+  by_cases hk : k < n
+  · simp only [List.getElem?_range hk, Option.map_some, swapPos]
+    by_cases hk2 : m2 = k
+    · subst hk2
+      by_cases hk1 : m1 = m2
+      · subst hk1; simp [h2]
+      · have : ¬ m2 = m1 := fun h => hk1 h.symm
+        simp [h2, this]
+    · by_cases hk1 : m1 = k
+      · subst hk1; simp [hk2, h1]
+      · have e1 : ¬ k = m1 := fun h => hk1 h.symm
+        have e2 : ¬ k = m2 := fun h => hk2 h.symm
+        simp [hk1, hk2, e1, e2]
+  · have e1 : ¬ m1 = k := by omega
+    have e2 : ¬ m2 = k := by omega
+    simp [e1, e2, List.getElem?_eq_none (show (List.range n).length ≤ k by simp; omega)]
+
+theorem swap_order_perm (n m1 m2 : Nat) (h1 : m1 < n) (h2 : m2 < n) :
+    ((List.range n).map (swapPos m1 m2)).Perm (List.range n) := by
+  apply perm_range_of_nodup
+  · apply List.Nodup.map _ List.nodup_range
+    intro x y hxy
+    have := congrArg (swapPos m1 m2) hxy
+    simpa [swapPos_invol] using this
+  · intro x hx
+    simp only [List.mem_map, List.mem_range] at hx
+    obtain ⟨k, hk, rfl⟩ := hx
+    exact swapPos_lt m1 m2 k n h1 h2 hk
+  · simp
+
+theorem normalizeAxis_ofNat (n k : Nat) (h : k < n) : normalizeAxis n (Int.ofNat k) = some k := by
+  unfold normalizeAxis
+  simp only [Int.ofNat_eq_natCast]
+  have h1 : -(n:Int) ≤ (k:Int) ∧ (k:Int) < (n:Int) := by omega
+  have h2 : ¬ ((k:Int) < 0) := by omega
+  simp only [h1, h2, and_self, if_true, if_false, Int.toNat_natCast]
+
+theorem normalizeAxes_ofNat (n : Nat) (p : List Nat) (h : ∀ a ∈ p, a < n) :
+    normalizeAxes n (p.map Int.ofNat) = some p := by
+  induction p with
+  | nil => simp [normalizeAxes]
+  | cons a p ih =>
+    have := ih (fun b hb => h b (by simp [hb]))
+    unfold normalizeAxes at this ⊢
+    rw [List.map_cons, mapM_cons_opt, normalizeAxis_ofNat n a (h a (by simp)), this]
+    rfl
+
 end NmVerif
